@@ -115,7 +115,12 @@ class VMX:
                     # disks to store the properties and their values.
                     # Properties for the bus device are stored with the unique
                     # <bus_id> key.
-                    device, dev_property = vm_setting.split(".", 1)
+                    #
+                    # Settings without a property (no ".") are not device settings,
+                    # even if their name happens to start with a device class.
+                    device, sep, dev_property = vm_setting.partition(".")
+                    if not sep:
+                        break
                     dev_id = device.lstrip(dev_class)
 
                     dev_ids = devices.setdefault(dev_class, {})
